@@ -48,11 +48,14 @@ chk('C07', 'model_checking',
     'GenForest.tla, SExpr.tla, LexerOps.tla, Conform.tla', 'DESIGN.md section 5, C07')
 
 chk('C11', 'model_checking',
-    'SExpr!SubstF/IntroduceVars are the statement of the property; TLC '
+    'SExpr!SubstF/SubstConsuming/IntroduceVars are the statement of the '
+    'property (on inputs with sharing an identity key is consumed by its '
+    'first occurrence in pre-order: OneOccurrencePerKey); TLC '
     'enumerates every (forest, simplification) pair of a bounded family '
     '(identity keys with delete/leaf/tree/existing-subtree replacements, '
     'structural keys whose replacement contains its own or the other key, '
-    'declarations after a set-logic prefix) and each final state is replayed '
+    'declarations after a set-logic prefix; one configuration over forests '
+    'WITH sharing) and each final state is replayed '
     'into mutator_utils.apply_simp under a watchdog; tokens, identities of '
     'untouched nodes and immutability of the base are compared.',
     'Bounded forests (<= 5/6 positions) and <= 2 keys of a kind; identity keys '
@@ -72,9 +75,14 @@ chk('C12', 'model_checking',
     'IdCounter.tla models the shared id counter (lock, increment, read as '
     'separate steps of several processes; TLC: Unique); histories of ids '
     'handed to processes constructing nodes concurrently are judged by TLC '
-    '(IdCounter!HistoryOK).',
+    '(IdCounter!HistoryOK). The same laws (hash and == agree with token '
+    'equality, deepcopy, pickling in process and through a worker, counts) '
+    'are checked directly on chains nested up to 3000 (thorough 20000) deep, '
+    'freshly parsed and freshly built.',
     'Hash collisions between different shapes are not constructed; trees '
-    'beyond the bound are not enumerated.',
+    'beyond the bound are not enumerated (deep chains are checked against '
+    'the laws, not against a TLC-computed value: the JSON reader of TLC stops '
+    'at 255 levels).',
     'TLA+ reference operators on TLC-enumerated trees replayed into the '
     'implementation, in-process and across processes',
     'GenForest.tla, SExpr.tla, IdCounter.tla, Conform.tla', 'DESIGN.md section 5, C12')
@@ -86,12 +94,15 @@ chk('C13', 'model_checking',
     'unchanged, identities pairwise distinct, clean nodes keep identity, '
     'argument unmodified.  Recorded runs over inputs with sharing mutators are validated by '
     'TLC (TraceHier/TraceDdmin: the input of every Producer/TaskGenerator is '
-    'a tree).',
+    'a tree); runs observed without the launcher creating nodes in the main '
+    'process (light mode, only the sharing mutator enabled) record the inputs '
+    'of producers/generators and argument and result of reduplicate with '
+    'their identities, judged by TLC (Conform.tla: ReduplicateOK).',
     'Bounded DAGs (<= 6/7 positions); a node must keep its identity only if '
     'nothing below it had to be copied.',
     'TLA+ reference predicate on TLC-enumerated DAGs replayed into the '
     'implementation',
-    'GenForest.tla, SExpr.tla, TraceHier.tla, TraceDdmin.tla', 'DESIGN.md section 5, C13')
+    'GenForest.tla, SExpr.tla, Conform.tla, TraceHier.tla, TraceDdmin.tla', 'DESIGN.md section 5, C13')
 
 STRAT_NOTE = ('Completion orders of the real pool are sampled (free-running '
               'runs with seeded command delays), the model covers all of them; '
@@ -108,11 +119,15 @@ chk('C01', 'model_checking',
     'launcher and validated by TLC against TraceHier/TraceDdmin, which replay '
     'them through the model\'s own main-loop action bodies; from outside the '
     'final file\'s tokens must be a run-and-accepted candidate of the command '
-    'log, the re-run command must match golden, the input must be unchanged.',
+    'log, the re-run command must match golden, the input must be unchanged. '
+    'Session.tla composes the phases (hybrid = ddmin, then hierarchical): '
+    'hand-over, report and the file at exit of every run are validated by '
+    'TraceSession.',
     STRAT_NOTE,
     'TLC model checking of the strategy specs + TLC trace validation of '
     'recorded CLI runs + external re-run of the command',
-    'Hier.tla, HierBad.tla, Ddmin.tla, TraceHier.tla, TraceDdmin.tla',
+    'Hier.tla, HierBad.tla, Ddmin.tla, Session.tla, TraceHier.tla, '
+    'TraceDdmin.tla, TraceSession.tla',
     'DESIGN.md section 5, C01')
 
 chk('C02', 'model_checking',
@@ -140,18 +155,25 @@ chk('C05', 'model_checking',
     'accepted by a check of exactly that candidate. In further runs the '
     'completion order of the checks is dictated by a scheduler the command '
     'blocks on (every sequence of choices of a depth), and the main loop is '
-    'delayed after successes; all validated by TLC.',
+    'delayed after successes; all validated by TLC. Across the phases of '
+    'hybrid the chain is the one of Session.tla (HandOver: a phase starts '
+    'from what the previous one returned, which is the last written input), '
+    'validated on every run by TraceSession; faulty variants of the session '
+    'model are refuted by TLC.',
     STRAT_NOTE,
     'TLC model checking of all interleavings + TLC trace validation of '
     'free-running and schedule-enumerated parallel executions',
-    'Hier.tla, HierBad.tla, Ddmin.tla, DdminBad.tla, TraceHier.tla, '
-    'TraceDdmin.tla', 'DESIGN.md section 5, C05')
+    'Hier.tla, HierBad.tla, Ddmin.tla, DdminBad.tla, Session.tla, '
+    'TraceHier.tla, TraceDdmin.tla, TraceSession.tla',
+    'DESIGN.md section 5, C05')
 
 chk('C18', 'model_checking',
     'Hier.tla with one worker satisfies FirstSuccessAdopted for every schedule '
     'of producer thread, worker and main loop, Ddmin.tla in sequential mode '
     'has no schedule at all (TLC). Each -j 1 configuration is run 3 times '
-    'with PYTHONHASHSEED 0/1/random and different command delays: accepted '
+    'with PYTHONHASHSEED 0/1/random and different delays of the command (and '
+    'of a slow reference solver; also minimising a hang that prints progress '
+    'lines): accepted '
     'sequences and output bytes must be identical; TLC validates each trace '
     'with the one-job clause (an adoption only after every earlier task of '
     'the sweep was tested and rejected).',
@@ -256,7 +278,9 @@ chk('C03', 'model_checking',
     'proposal strictly lowers a rank = no cycle; Changes: no proposal is a '
     'no-op); a cycle is confirmed end to end by running ddSMT against the '
     'command accepting exactly its members. (3) Every mutator call of the '
-    'exploration runs under a watchdog.',
+    'exploration runs under a watchdog (CPU time). (4) TraceDdmin requires '
+    'that a parallel ddmin round restarts right after the adopted subset '
+    '(the strictly growing restart index ends the round).',
     'Closures are bounded (inputs per seed) around hand-kept and corpus '
     'seeds: a bounded search for cycles, not a proof of well-foundedness; '
     'time/memory per proposal is measured by the harness, not by TLC.',
@@ -268,7 +292,8 @@ chk('C03', 'model_checking',
 chk('C10', 'fault_enumeration',
     'Exec.tla models one execution of the command with limits in logical '
     'time and six child behaviours (quick, sleep, spin, allocate, signal, '
-    'grandchild holding the pipes); TLC checks NoUnboundedWait (liveness), '
+    'grandchild holding the pipes; the scripted command also allocates by '
+    'shared mappings and ignores SIGTERM); TLC checks NoUnboundedWait (liveness), '
     'TotalTimeBound, KilledIsGone, HangsTimeOut. The faults are enumerated '
     'against the real code with real kernel limits: all placements of <= 3 '
     'fault kinds x strategy x -j 1/2 x explicit or derived limit (x --memout); '
@@ -296,7 +321,10 @@ chk('C16', 'model_checking',
     'same is recorded on the seed scripts of all theories and judged by TLC '
     'at every term position; every proposal of Constants, ReplaceByVariable, '
     'IntroduceFreshVariable (and ReplaceByChild where ddSMT claims a sort) '
-    'must keep the sort of the replaced term (TLC, kind samesort).',
+    'must keep the sort of the replaced term (TLC, kind samesort). Directed '
+    'scripts: select over a store whose base ddSMT cannot type; a let whose '
+    'second binding is too deep for recursive inference (judged against the '
+    'script with the deep term replaced by a shallow one of the same sort).',
     'SmtSem.tla is the trusted statement of the typing rules (terms it '
     'cannot type are not judged); bounded sort universe and nesting depth; '
     'a bound variable proposed outside its scope is not a sort error.',
@@ -352,6 +380,11 @@ ENGINES = [
      'TLA+ trace spec reusing Hier.tla action bodies'),
     ('TraceDdmin.tla', 'specs/TraceDdmin.tla',
      'TLA+ trace spec reusing Ddmin.tla action bodies'),
+    ('Session.tla', 'specs/Session.tla',
+     'TLA+ spec: composition of the reduction phases in cli.ddsmt_main '
+     '(hand-over, report, file at exit)'),
+    ('TraceSession.tla', 'specs/TraceSession.tla',
+     'TLA+ trace spec reusing Session.tla actions'),
     ('Main.tla', 'specs/Main.tla', 'TLA+ spec: phases and exit status'),
     ('GenShapes.tla', 'specs/GenShapes.tla',
      'TLA+ spec: generator of ill-formed s-expression shapes'),
